@@ -315,7 +315,7 @@ def emit_crate(out, crate, descs):
     for c in range(nchunks):
         src.append("    registry_{}(&mut r);".format(c))
     src.append("    r\n}")
-    cargo = CARGO % crate
+    cargo = (CARGO % crate).replace("@REPO@", os.environ.get("VERIF_REPO", "/repo"))
     write_if_changed(os.path.join(out, "Cargo.toml"), cargo)
     changed = write_if_changed(os.path.join(out, "src", "lib.rs"), "\n".join(src) + "\n")
     return len(keys), len(g.order), changed
@@ -330,8 +330,8 @@ path = "src/lib.rs"
 
 [dependencies]
 vcommon = { path = "../../common" }
-savefile = { path = "/repo/savefile", features = ["encryption", "compression", "bit-set", "bit-vec", "rustc-hash", "serde_derive"] }
-savefile-derive = { path = "/repo/savefile-derive" }
+savefile = { path = "@REPO@/savefile", features = ["encryption", "compression", "bit-set", "bit-vec", "rustc-hash", "serde_derive"] }
+savefile-derive = { path = "@REPO@/savefile-derive" }
 indexmap = "2.6"
 smallvec = "1"
 arrayvec = "0.7"
